@@ -292,6 +292,9 @@ pub struct BlockNode {
 pub struct Tis {
     pub is: Val,
     pub data: Option<Vec<ObjItem>>,
+    /// `data="{{ (expr) }}"`: the data object is the value of one expression (used when `data` is None)
+    #[serde(default)]
+    pub data_expr: Option<Expr>,
 }
 
 #[derive(Clone, Debug, PartialEq, Serialize, Deserialize)]
@@ -511,6 +514,8 @@ pub fn visit_exprs(nodes: &[Node], scopes: &mut Vec<String>, f: &mut dyn FnMut(&
                 if let Some(items) = &t.data {
                     let e = Expr::Obj(items.clone());
                     f(&e, scopes, "tdata");
+                } else if let Some(e) = &t.data_expr {
+                    f(e, scopes, "tdata");
                 }
             }
             Node::Slot(s) => {
@@ -949,6 +954,8 @@ impl Printer {
                         p.attr_raw("is", Some(&t.is));
                         if let Some(items) = &t.data {
                             p.obj_inner_attr("data", items);
+                        } else if let Some(e) = &t.data_expr {
+                            p.attr_raw("data", Some(&Val::Bind(e.clone())));
                         }
                         p.directives(d);
                     },
@@ -1427,6 +1434,13 @@ impl<'a> Jb<'a> {
                     self.note(&id, "tdata:".into(), Some(&v), scopes);
                     expr::ref_js(&e, scopes)
                 });
+                let data = match (&data, &t.data_expr) {
+                    (None, Some(e)) => {
+                        self.note(&id, "tdata:".into(), Some(&Val::Bind(e.clone())), scopes);
+                        Some(expr::ref_js(e, scopes))
+                    }
+                    _ => data,
+                };
                 json!({"k":"tis","id":id,"is":val_json(&t.is, scopes),"data":data})
             }
             Node::Include(src) => {
